@@ -123,6 +123,7 @@ impl InlineInt {
         self.0.signum()
     }
 
+    #[cfg_attr(feature = "verif_kani", kani::ensures(|r: &Option<InlineInt>| { let m = self.0 as i64 + rhs.0 as i64; (r.is_some() == (m >= i32::MIN as i64 && m <= i32::MAX as i64)) && r.map_or(true, |v| v.0 as i64 == m) }))]
     #[inline]
     pub(crate) fn checked_add(self, rhs: InlineInt) -> Option<InlineInt> {
         self.0
@@ -135,6 +136,7 @@ impl InlineInt {
         self.checked_sub_i32(rhs.0)
     }
 
+    #[cfg_attr(feature = "verif_kani", kani::ensures(|r: &Option<InlineInt>| { let m = self.0 as i64 - rhs as i64; (r.is_some() == (m >= i32::MIN as i64 && m <= i32::MAX as i64)) && r.map_or(true, |v| v.0 as i64 == m) }))]
     #[inline]
     pub(crate) fn checked_sub_i32(self, rhs: i32) -> Option<InlineInt> {
         self.0
@@ -142,6 +144,7 @@ impl InlineInt {
             .and_then(|i| InlineInt::try_from(i).ok())
     }
 
+    #[cfg_attr(feature = "verif_kani", kani::ensures(|r: &Option<InlineInt>| { let m = -(self.0 as i64); (r.is_some() == (m <= i32::MAX as i64)) && r.map_or(true, |v| v.0 as i64 == m) }))]
     #[inline]
     pub(crate) fn checked_neg(self) -> Option<InlineInt> {
         self.0
@@ -149,6 +152,7 @@ impl InlineInt {
             .and_then(|i| InlineInt::try_from(i).ok())
     }
 
+    #[cfg_attr(feature = "verif_kani", kani::ensures(|r: &Option<InlineInt>| { let ok = rhs.0 != 0 && !(self.0 == i32::MIN && rhs.0 == -1); r.is_some() == ok }))]
     #[inline]
     pub(crate) fn checked_div(self, rhs: InlineInt) -> Option<InlineInt> {
         self.0
@@ -156,6 +160,7 @@ impl InlineInt {
             .and_then(|i| InlineInt::try_from(i).ok())
     }
 
+    #[cfg_attr(feature = "verif_kani", kani::ensures(|r: &Option<InlineInt>| { let m = self.0 as i64 * rhs as i64; (r.is_some() == (m >= i32::MIN as i64 && m <= i32::MAX as i64)) && r.map_or(true, |v| v.0 as i64 == m) }))]
     #[inline]
     pub(crate) fn checked_mul_i32(self, rhs: i32) -> Option<InlineInt> {
         self.0
@@ -163,6 +168,7 @@ impl InlineInt {
             .and_then(|i| InlineInt::try_from(i).ok())
     }
 
+    #[cfg_attr(feature = "verif_kani", kani::ensures(|r: &Option<InlineInt>| (r.is_some() == (rhs < 32)) && r.map_or(true, |v| v.0 as i64 == (self.0 as i64).div_euclid(1i64 << rhs))))]
     #[inline]
     pub(crate) fn checked_shr(self, rhs: u32) -> Option<InlineInt> {
         self.0
@@ -170,6 +176,7 @@ impl InlineInt {
             .and_then(|i| InlineInt::try_from(i).ok())
     }
 
+    #[cfg_attr(feature = "verif_kani", kani::ensures(|r: &Option<InlineInt>| { let m = if rhs < 32 { Some((self.0 as i64) * (1i64 << rhs)) } else { None }; (r.is_some() == m.map_or(false, |m| m >= i32::MIN as i64 && m <= i32::MAX as i64)) && r.map_or(true, |v| Some(v.0 as i64) == m) }))]
     #[inline]
     pub(crate) fn checked_shl(self, rhs: u32) -> Option<InlineInt> {
         // `i32::checked_shl` only rejects shifts that are too wide; it still
@@ -382,5 +389,90 @@ mod tests {
         assert_eq!((-2, 1), InlineInt::min_max_for_bits(2));
         assert_eq!((-4, 3), InlineInt::min_max_for_bits(3));
         assert_eq!((i32::MIN, i32::MAX), InlineInt::min_max_for_bits(32));
+    }
+}
+
+/// Kani proof harnesses (full `i32` / `u32` domains, loop-free: each run is a complete proof).
+#[cfg(feature = "verif_kani")]
+mod verif_kani {
+    use super::*;
+
+    fn any_inline() -> InlineInt {
+        InlineInt(kani::any())
+    }
+
+    #[kani::proof_for_contract(InlineInt::checked_add)]
+    fn c10_inline_checked_add() {
+        let _ = any_inline().checked_add(any_inline());
+    }
+
+    #[kani::proof_for_contract(InlineInt::checked_sub_i32)]
+    fn c10_inline_checked_sub_i32() {
+        let _ = any_inline().checked_sub_i32(kani::any());
+    }
+
+    #[kani::proof]
+    fn c10_inline_checked_sub() {
+        let (a, b) = (any_inline(), any_inline());
+        let m = a.0 as i64 - b.0 as i64;
+        let r = a.checked_sub(b);
+        assert!(r.is_some() == (m >= i32::MIN as i64 && m <= i32::MAX as i64));
+        assert!(r.map_or(true, |v| v.0 as i64 == m));
+        kani::cover!(r.is_some());
+        kani::cover!(r.is_none());
+    }
+
+    #[kani::proof_for_contract(InlineInt::checked_neg)]
+    fn c10_inline_checked_neg() {
+        let _ = any_inline().checked_neg();
+    }
+
+    #[kani::proof_for_contract(InlineInt::checked_div)]
+    fn c10_inline_checked_div() {
+        let _ = any_inline().checked_div(any_inline());
+    }
+
+    #[kani::proof_for_contract(InlineInt::checked_mul_i32)]
+    fn c10_inline_checked_mul_i32() {
+        let _ = any_inline().checked_mul_i32(kani::any());
+    }
+
+    #[kani::proof_for_contract(InlineInt::checked_shr)]
+    fn c10_inline_checked_shr() {
+        let _ = any_inline().checked_shr(kani::any());
+    }
+
+    #[kani::proof_for_contract(InlineInt::checked_shl)]
+    fn c10_inline_checked_shl() {
+        let _ = any_inline().checked_shl(kani::any());
+    }
+
+    /// Conversions from the host's fixed-width integer types: `Ok` exactly when the value fits, value preserved.
+    #[kani::proof]
+    fn c10_inline_try_from_host_ints() {
+        let a: i32 = kani::any();
+        assert!(InlineInt::try_from(a).ok().map(|v| v.0) == Some(a));
+        let b: u32 = kani::any();
+        assert!(InlineInt::try_from(b).ok().map(|v| v.0 as i64) == if b <= i32::MAX as u32 { Some(b as i64) } else { None });
+        let c: i64 = kani::any();
+        assert!(InlineInt::try_from(c).ok().map(|v| v.0 as i64) == if c >= i32::MIN as i64 && c <= i32::MAX as i64 { Some(c) } else { None });
+        let d: u64 = kani::any();
+        assert!(InlineInt::try_from(d).ok().map(|v| v.0 as i64) == if d <= i32::MAX as u64 { Some(d as i64) } else { None });
+        let e: usize = kani::any();
+        assert!(InlineInt::try_from(e).ok().map(|v| v.0 as i64) == if e <= i32::MAX as usize { Some(e as i64) } else { None });
+        let f: isize = kani::any();
+        assert!(InlineInt::try_from(f).ok().map(|v| v.0 as i64) == if f >= i32::MIN as isize && f <= i32::MAX as isize { Some(f as i64) } else { None });
+        kani::cover!(true);
+    }
+
+    /// ... and back: to_u32 / to_u64 are `Some` exactly for non-negative values.
+    #[kani::proof]
+    fn c10_inline_to_host_ints() {
+        let a = any_inline();
+        assert!(a.to_u32() == if a.0 >= 0 { Some(a.0 as u32) } else { None });
+        assert!(a.to_u64() == if a.0 >= 0 { Some(a.0 as u64) } else { None });
+        assert!(a.to_i32() == a.0);
+        assert!(a.signum() == if a.0 > 0 { 1 } else if a.0 < 0 { -1 } else { 0 });
+        kani::cover!(true);
     }
 }
